@@ -152,6 +152,7 @@ def add_constraint(v, w, y):
 @inited
 def prove():
     try:
+        if qape is not None: qape.flush()   # qapsplit reads the equation file back from disk
         qaplens,blklen,extlen,sigs = qapsplit.qapsplit()
 
         #print("qaplens", qaplens, "blklen", blklen, "extlen", extlen, "sigs", sigs)
